@@ -148,7 +148,16 @@ def r123(chk):
         detail["count"] = norm(cnt[0].value)
         l = pl[0]
         apps = [c for c in walk_local(l) if isinstance(c, ast.Call) and norm(c.func) == f"{PV}.append"]
-        ok = symx.equivalent(v, want)[0] and norm(l.iter) == f"range({CNT})" and len(apps) == 1 \
+        # the loop makes exactly CNT iterations: range(CNT), range(1, CNT + 1), ...
+        trips = None
+        if isinstance(l.iter, ast.Call) and norm(l.iter.func) == "range" and 1 <= len(l.iter.args) <= 2 and not l.iter.keywords:
+            try:
+                rs = [Tx().expr(a_) for a_ in l.iter.args]
+                if all(isinstance(r_, E) for r_ in rs):
+                    trips = rs[0].e if len(rs) == 1 else rs[1].e - rs[0].e
+            except symx.Unsupported:
+                trips = None
+        ok = symx.equivalent(v, want)[0] and trips is not None and is_zero(trips - S(CNT)) and len(apps) == 1 \
             and parent(parent(apps[0])) is l and not [n for n in walk_local(l) if isinstance(n, (ast.Break, ast.Continue))]
     chk.ob("C08.R1", where, "stratum-accounting", ok,
            "without style information exactly max_cards - len(cvr_list) phantom records are created (one per iteration)",
